@@ -768,6 +768,9 @@ pub struct HCfg {
     pub check_c06: bool,
     pub check_c10: bool,
     pub check_ledger: bool,
+    /// compare presence of every universe key with a plain set model after every op (worlds without nested loads)
+    #[serde(default)]
+    pub check_presence: bool,
 }
 
 pub fn split_file(s: &str) -> (String, String) {
@@ -795,6 +798,7 @@ pub struct World {
     pub maybe: BTreeMap<Key, BTreeSet<Dep>>,
     /// entry fault armed in the source and not consumed yet (model side)
     pub armed_entry: Option<String>,
+    pub present: BTreeSet<Key>,
     pub pending_maybe: BTreeSet<Dep>,
     pub pending: BTreeSet<Dep>,
     /// entries whose value must never change: key -> value text (get_or_insert, non-reloadable, no reloader)
@@ -911,6 +915,7 @@ impl World {
             known_entries: BTreeSet::new(),
             maybe: BTreeMap::new(),
             armed_entry: None,
+            present: BTreeSet::new(),
             pending_maybe: BTreeSet::new(),
             pending: BTreeSet::new(),
             pinned: BTreeMap::new(),
@@ -1318,6 +1323,9 @@ impl World {
                     }
                 };
                 self.obs.push(format!("{op} -> {:?}", real.as_ref().map_err(|e| matches!(e, EvErr::Panic))));
+                if !owned && real.is_ok() {
+                    self.present.insert(key.clone());
+                }
                 if !was_cached || owned {
                     let same = match (&real, &pred) {
                         (Ok(a), Ok(b)) => a == b,
@@ -1360,6 +1368,7 @@ impl World {
                     _ => panic!("goi type"),
                 };
                 self.obs.push(format!("{op} -> {got}"));
+                self.present.insert(key.clone());
                 if !was {
                     if got != val {
                         self.violation("goi-mismatch", format!("`{op}` on an absent key returned {got}"));
@@ -1403,12 +1412,14 @@ impl World {
                     self.violation("remove-mismatch", format!("`{op}` returned {r}, entry present before: {was}"));
                 }
                 self.pinned.remove(&key);
+                self.present.remove(&key);
                 self.quiesce();
             }
             "clear" => {
                 let Some(CacheRef::Owned(c)) = self.cache.as_mut() else { panic!("clear on static cache") };
                 c.clear();
                 self.pinned.clear();
+                self.present.clear();
                 self.quiesce();
                 self.pending.clear();
                 self.obs.push("clear".into());
@@ -1585,6 +1596,15 @@ impl World {
             _ => panic!("bad op {op}"),
         }
         let _ = &mut owned_alive;
+        if self.cfg.check_presence {
+            for k in self.universe() {
+                let real = self.peek(&k).is_some();
+                let want = self.present.contains(&k);
+                if real != want {
+                    self.violation(format!("c02:presence:{:?}", k.0), format!("after `{op}`: entry {k:?} present={real}, the reference set says {want}"));
+                }
+            }
+        }
         self.check_pinned(op);
         self.check_ledger(op, owned_alive);
     }
